@@ -3,12 +3,11 @@ import re
 
 
 def _translate():
-    from translate import stripe_net, stripe_seq
-    a = stripe_net.translate()
-    b = stripe_seq.translate()
-    return dict(ok=a.get("ok", True) and b.get("ok", True),
-                notes=a.get("notes", []) + b.get("notes", []),
-                errors=a.get("errors", []) + b.get("errors", []))
+    from translate import stripe_net, stripe_seq, stripe_pli
+    rs = [stripe_net.translate(), stripe_seq.translate(), stripe_pli.translate()]
+    return dict(ok=all(r.get("ok", True) for r in rs),
+                notes=sum((r.get("notes", []) for r in rs), []),
+                errors=sum((r.get("errors", []) for r in rs), []))
 
 
 def _ops(line):
